@@ -73,7 +73,7 @@ META = {
          "after PositionalSporadicDissimilarity(d), AbsoluteCategoricalDissimilarity(d) and CombinedCategoricalDissimilarity(a, b, d) the "
          "object's d_mat IS that formula with the object's own delta_empty, and the one delta_empty reaches both components of the combined one.",
    note="Also proved: supplied components, precomputed / Levenshtein / ordinal / numerical constructors (their matrices do not depend on the "
-        "order in which labels are supplied). Assumed: check_if_dissim changes nothing; the Levenshtein distance is a function of the two "
+        "order in which labels are supplied). check_if_dissim is proved to change nothing. Assumed: the Levenshtein distance is a function of the two "
         "names; numpy argsort / unique / arange / number parsing models."),
  "C12": dict(
    technique="contract-based deductive verification of Alignment.gamma_k_disorder against a ghost fold written from the statement "
